@@ -31,7 +31,7 @@ class Sim:
         self.repo = os.path.join(self.base, "repo")
         self.mode = mode
         self.binary = binary or C.GITAI
-        self.clock = 1700000000
+        self.clock = 1767225600   # 2026-01-01: after OLDEST_AI_BLAME_DATE (2025-07-04), older commits are never AI-blamed
         self.log = []          # (argv, rc) for the replay file
         if config_patch is None:
             config_patch = {"exclude_prompts_in_repositories": [], "prompt_storage": "notes"}
